@@ -81,6 +81,16 @@ void sc_vol(Tape& t, int variant, Emit& e) {
 	for (size_t i = 0; i < v.GetCount(); ++i) { e.text("vol.name", v.GetName(i)); e.num("vol.size", v.GetSize(i)); e.num("vol.comp", int(v.GetCompressionCode(i))); }
 	if (v.GetCount()) { v.ExtractFile(0, "%o/x.bin"); e.blob("vol.extract0", slurp("%o/x.bin")); }
 	for (auto& f : fs) remove(("%in/" + f.first).c_str()); remove(out.c_str());
+	// parse side on a foreign archive: unused trailing slots with arbitrary stale fields, extra name padding, an index length that covers pad bytes -
+	// whatever the listing reports for the valid members must come from the file, not from memory
+	{ std::vector<refvol::Member> ms; unsigned k = unsigned(t.below(4));
+	  for (unsigned i = 0; i < k; ++i) { refvol::Member m; m.name = std::string(1, char('a' + i)) + "_f" + std::to_string(i); m.payload = t.expand(t.below(40)); m.sizeField = uint32_t(m.payload.size() + t.below(3)); m.comp = t.pick<uint16_t>({0x100, 0x100, 0x103, 0x101}); ms.push_back(m); }
+	  refvol::EncodeOpts eo; eo.unusedSlots = unsigned(t.below(4)); eo.unusedFill = t.u32(); eo.namePadWords = unsigned(t.below(3)); eo.indexLenExtra = t.below(3) == 0 ? 1 + unsigned(t.below(13)) : 0;
+	  std::string fp = "%o/foreign.vol"; write_file(fp, refvol::encode(ms, eo));
+	  try { Archive::VolFile fv(fp); e.num("foreign.count", (long long)fv.GetCount());
+	    for (size_t i = 0; i < fv.GetCount(); ++i) { e.text("foreign.name", fv.GetName(i)); e.num("foreign.size", fv.GetSize(i)); e.num("foreign.comp", int(fv.GetCompressionCode(i))); auto sr = fv.OpenStream(i); std::vector<uint8_t> g(size_t(sr->Length())); sr->Read(g.data(), g.size()); e.blob("foreign.stream", g); }
+	  } catch (const std::exception&) { e.text("foreign", "refused"); }
+	  remove(fp.c_str()); }
 }
 void sc_clm(Tape& t, int variant, Emit& e) {
 	volgen::root();
